@@ -54,6 +54,7 @@ type rep struct {
 	at    *addr    // kPtr: where it points (for memory keys)
 	tuple []rep    // kTuple
 	clos  *closRef // kPtr: a closure created in an analysed frame (lets dynamic calls be expanded)
+	lst   int      // kSlice of slices: identity of the list value (0 = not tracked); see lists.go
 }
 
 type closRef struct {
